@@ -106,6 +106,37 @@ pub fn env_files(thorough: bool) -> Report {
             }
         }
     }
+    // read side, hand-made layout: every suffix in every directory, read into the right scope with the right behaviour
+    {
+        let t = tempfile::tempdir().unwrap(); let l = t.path();
+        let dirs = [("env", Scope::All), ("env.build", Scope::Build), ("env.launch", Scope::Launch), ("env.launch/web", Scope::Process("web".into()))];
+        for (d, _) in &dirs {
+            fs::create_dir_all(l.join(d)).unwrap();
+            let tag = d.replace('/', "_");
+            fs::write(l.join(d).join("A.append"), format!("+{tag}")).unwrap(); fs::write(l.join(d).join("A.delim"), "|").unwrap();
+            fs::write(l.join(d).join("P.prepend"), format!("{tag}+")).unwrap();
+            fs::write(l.join(d).join("D.default"), format!("d-{tag}")).unwrap(); fs::write(l.join(d).join("D2.default"), format!("d2-{tag}")).unwrap();
+            fs::write(l.join(d).join("O.override"), format!("o-{tag}\n")).unwrap();
+            fs::write(l.join(d).join("N.A.ME.override"), format!("dotted-{tag}")).unwrap();
+        }
+        match LayerEnv::read_from_layer_dir(l) {
+            Err(e) => r.violation("read_rules", "read failed on a hand-made CNB layout", "all suffixes in env, env.build, env.launch, env.launch/web".into(), "Ok".into(), format!("{e}")),
+            Ok(le) => {
+                for (d, scope) in &dirs {
+                    r.evaluations += 1; r.nontrivial += 1;
+                    let tag = d.replace('/', "_");
+                    // the scope-specific entries apply after the ones of `env` (all); a process scope does not see env.launch's own files
+                    let chain: Vec<String> = if *d == "env" { vec!["env".into()] } else { vec!["env".into(), tag.clone()] };
+                    let mut e0 = Env::new(); e0.insert("A", "a0"); e0.insert("P", "p0"); e0.insert("D", "keep"); e0.insert("O", "o0");
+                    let got = le.apply(scope.clone(), &e0);
+                    let mut a = String::from("a0"); let mut pv = String::from("p0"); let mut d2 = None; let mut o = String::new(); let mut n = String::new();
+                    for c in &chain { a = format!("{a}|+{c}"); pv = format!("{c}+{pv}"); if d2.is_none() { d2 = Some(format!("d2-{c}")); } o = format!("o-{c}\n"); n = format!("dotted-{c}"); }
+                    let want = [("A", a), ("P", pv), ("D", "keep".to_string()), ("D2", d2.unwrap()), ("O", o), ("N.A.ME", n)];
+                    for (k, v) in want { if got.get(k).map(|x| x.to_string_lossy().to_string()) != Some(v.clone()) { r.violation("read_rules", "a hand-made CNB layout is read into the right scope with the right behaviour for every suffix", format!("directory {d}, variable {k}, start A=a0 P=p0 D=keep O=o0"), v, format!("{:?}", got.get(k))); } }
+                }
+            }
+        }
+    }
     r.samples.push("old = [Override A (process web)], new = [] -> env.launch/ must be gone".into());
     r
 }
